@@ -280,10 +280,14 @@ const COND_LINE_COMMENTS: [&str; 10] = [
 fn decorate_conditional_lines(src: &str) -> String {
     let mut out = String::with_capacity(src.len() + 64);
     for (i, line) in src.lines().enumerate() {
-        out.push_str(line);
         let t = line.trim_start().to_lowercase();
         let is_cond = [".if", ".elif", ".else", ".endif", "#if", "#elif", "#else", "#endif"].iter().any(|k| t.starts_with(k));
         let h = fw::hash_str(line).wrapping_add(i as u64 * 7);
+        // one in seven stands far to the right: however far a directive is indented, it is the directive
+        if is_cond && h % 7 == 3 {
+            out.push_str(&[" ", "\t", " \t"][(h / 7 % 3) as usize].repeat(90 + (h / 21 % 200) as usize));
+        }
+        out.push_str(line);
         if is_cond && !line.contains('"') && !line.contains("/*") && h % 3 == 0 {
             out.push_str(COND_LINE_COMMENTS[(h / 3 % COND_LINE_COMMENTS.len() as u64) as usize]);
         }
@@ -394,7 +398,8 @@ pub fn check(ctx: &Ctx, nodes: &[Node], shape: &str) {
             let is_cond = [".if", ".elif", ".else", ".endif", "#if", "#elif", "#else", "#endif"].iter().any(|d| t.starts_with(d));
             let _ = &cond;
             if !in_macro && is_cond && (i + fw::hash_str(&src) as usize) % 3 != 0 {
-                labelled.push_str(&format!("c08_at_line_{}: ", i + 1));
+                // (every fifth such label is very long)
+                labelled.push_str(&format!("c08_at_line_{}{}: ", i + 1, if i % 5 == 2 { "_and_a_very_long_name_at_that".repeat(6) } else { String::new() }));
                 n_labelled += 1;
                 labelled_lines.push(i + 1);
             }
@@ -415,7 +420,7 @@ pub fn check(ctx: &Ctx, nodes: &[Node], shape: &str) {
             // a label that stands on a line of an unselected branch exists nowhere: naming it is an error
             let unsel: HashSet<usize> = r.unselected.iter().map(|(_, l)| *l).collect();
             if let Some(l) = labelled_lines.iter().find(|l| unsel.contains(l)) {
-                let referencing = format!("{}.cseg\n\t.dw c08_at_line_{}\n", labelled, l);
+                let referencing = format!("{}.cseg\n\t.dw c08_at_line_{}{}\n", labelled, l, if (l - 1) % 5 == 2 { "_and_a_very_long_name_at_that".repeat(6) } else { String::new() });
                 let o = fw::build_str(&referencing);
                 ctx.eval(1);
                 ctx.count("references_to_labels_of_unselected_lines", 1);
